@@ -237,7 +237,7 @@ func (s *indexKVStore) PrepareFlush() {
 	s.lock.Lock()
 	defer s.lock.Unlock()
 
-	if s.immutable == nil {
+	if s.immutable == nil || s.immutable.IsEmpty() {
 		s.immutable = s.mutable
 		s.mutable = imap.NewIntMap[map[string]uint32]()
 	}
